@@ -130,7 +130,7 @@ def _ob(op):
     return s
 
 
-def _replay(op):
+def _build(op):
     def build(m):
         ch = m['_choices']
         rate = m['rate']
@@ -176,7 +176,11 @@ def _replay(op):
         else:
             d['txs'] = [('creator', Fm('close', farm_identifier='f-2'), [])]
         return d
-    return fm_replay(build)
+    return build
+
+
+def _replay(op):
+    return fm_replay(_build(op))
 
 
 for _op in OPS:
